@@ -16,7 +16,8 @@ from outrank.core_ranking import mixed_rank_graph
 ID = 'C06'
 RULE = ('Column sets of 1-40 unique names (ASCII, spaces, unicode, punctuation, names containing " AND_REL " acting as 3MR relation '
         'features, label at any position) over tiny string frames (3-8 rows); mode target-only / pairwise; heuristic in '
-        '{MI-numba-randomized, MI-numba-3mr, Constant}; cap in {1..|candidates|+5, 2^15, 10^4+1, 10^5}; 1-3 consecutive batches per case '
+        '{MI-numba-randomized, MI-numba-3mr, Constant, correlation-Pearson (NaN scores on constant columns), max-value-coverage, MI, AMI}; '
+        'the label column is "label" or a sequence of 1-2 other columns ranked one after the other in the same process; cap in {1..|candidates|+5, 2^15, 10^4+1, 10^5}; 1-3 consecutive batches per case '
         '(fresh sampler state before the first); names include look-alikes of the relation marker (BRAND_RELEVANCE, AND_REL without blanks) and of the label. Non-trivial = >=3 columns and (cap < |required pairs| or pairwise or 3MR). Distinct = digest of the case.')
 ASSUMPTIONS = ['duplicate candidates (pairwise mode lists non-label self pairs twice) are tolerated: the statement speaks of sets of pairs',
                'self pairs of relation features are allowed but not required (statement silent)',
@@ -56,19 +57,23 @@ def case_strategy(draw):
     nrows = draw(st.integers(3, 8))
     seed = draw(st.integers(0, 2**32 - 1))
     pairwise = draw(st.booleans())
-    heuristic = draw(st.sampled_from(['MI-numba-randomized', 'MI-numba-3mr', 'Constant']))
-    nreq = len(required_pairs(cols, pairwise, heuristic))
+    heuristic = draw(st.sampled_from(['MI-numba-randomized', 'MI-numba-randomized', 'MI-numba-3mr', 'MI-numba-3mr', 'Constant',
+                                      'correlation-Pearson', 'max-value-coverage', 'MI', 'AMI']))
+    if heuristic in ('MI', 'AMI') and len(cols) > 8:
+        heuristic = 'max-value-coverage'      # sklearn scorers cost ~1 ms per pair; keep them to small column sets
+    plain = [c for c in cols if ' AND_REL ' not in c]
+    labels = ['label'] if draw(st.integers(0, 2)) else draw(st.lists(st.sampled_from(plain), min_size=1, max_size=2, unique=True))
+    nreq = len(required_pairs(cols, pairwise, heuristic))   # size with the default label; only used to scale the cap
     cap = draw(st.one_of(st.integers(1, nreq + len(cols) + 5), st.sampled_from([2**15, 10**4 + 1, 10**5])))
     return {'cols': cols, 'nrows': nrows, 'seed': seed, 'pairwise': pairwise, 'heuristic': heuristic, 'cap': cap,
-            'batches': draw(st.sampled_from([1, 1, 2, 3]))}
+            'batches': draw(st.sampled_from([1, 1, 2, 3])), 'labels': labels}
 
 
 def upair(a, b):
     return (a, b) if a <= b else (b, a)
 
 
-def required_pairs(cols, pairwise, heuristic):
-    label = 'label'
+def required_pairs(cols, pairwise, heuristic, label='label'):
     if '3mr' in heuristic:
         rel = [c for c in cols if ' AND_REL ' in c]
         non = [c for c in cols if ' AND_REL ' not in c]
@@ -80,8 +85,8 @@ def required_pairs(cols, pairwise, heuristic):
     return {upair(a, b) for a, b in itertools.combinations_with_replacement(cols, 2)}
 
 
-def allowed_pairs(cols, pairwise, heuristic):
-    req = required_pairs(cols, pairwise, heuristic)
+def allowed_pairs(cols, pairwise, heuristic, label='label'):
+    req = required_pairs(cols, pairwise, heuristic, label)
     if '3mr' in heuristic and pairwise:
         req = req | {upair(c, c) for c in cols if ' AND_REL ' in c}
     return req
@@ -91,58 +96,66 @@ def oracle(case, rec):
     cols, pairwise, h, cap = case['cols'], case['pairwise'], case['heuristic'], int(case['cap'])
     rng = np.random.Generator(np.random.PCG64(int(case['seed'])))
     df = pd.DataFrame({c: [str(int(v)) for v in rng.integers(0, 3, size=case['nrows'])] for c in cols})
-    args = stubs.make_args(heuristic=h, target_ranking_only='False' if pairwise else 'True',
-                           combination_number_upper_bound=cap)
     stubs.reset_globals()
-    req = required_pairs(cols, pairwise, h)
-    allowed = allowed_pairs(cols, pairwise, h)
     eff_cap = min(cap, 10**4) if '3mr' in h else cap
-    dups = len([c for c in cols if c != 'label']) if pairwise else 0
     nb = int(case.get('batches', 1))
-    rec.nt(len(cols) >= 3 and (eff_cap < len(req) or pairwise or '3mr' in h), key=case)
-    rec.cls('h=' + h, 'pairwise' if pairwise else 'target-only', 'capped' if eff_cap < len(req) else 'uncapped',
-            'batches=%d' % nb)
+    labels = case.get('labels') or ['label']
+    req0 = required_pairs(cols, pairwise, h, labels[0])
+    rec.nt(len(cols) >= 3 and (eff_cap < len(req0) or pairwise or '3mr' in h), key=case)
+    rec.cls('h=' + h, 'pairwise' if pairwise else 'target-only', 'capped' if eff_cap < len(req0) else 'uncapped',
+            'batches=%d' % nb, 'labels=%d' % len(labels))
     if any(' AND_REL ' in c for c in cols):
         rec.cls('has-relation-feature')
     if any('AND_REL' in c and ' AND_REL ' not in c for c in cols):
         rec.cls('has-lookalike-of-relation-name')
     colset = set(cols)
-    for bi in range(nb):
-        out = mixed_rank_graph(df, args, stubs.InlinePool(), stubs.PBar()).triplet_scores
-        where = f'batch {bi + 1} of {nb}: '
-        for a, b, s in out:
-            if a not in colset or b not in colset:
-                raise Violation(where + f'row mentions a column outside the feature space: {(a, b)}', kind='C06/foreign-column')
-        evaluated = {upair(a, b) for a, b, _ in out}
-        if not evaluated <= allowed:
-            raise Violation(where + f'evaluated pairs outside the requested set: {sorted(evaluated - allowed)[:5]}',
-                            kind='C06/not-requested')
-        if h == 'Constant':
-            if any(float(s) != 0.0 for _, _, s in out):
-                raise Violation(where + 'Constant heuristic emitted a non-zero score', kind='C06/constant')
-            nsel = len(out)
-        else:
-            rows = Counter((a, b, float(s)) for a, b, s in out)
-            for (a, b, s), k in rows.items():
-                if rows.get((b, a, s), 0) != k:
-                    raise Violation(where + f'orientation ({a!r},{b!r},{s}) occurs {k}x but its mirror {rows.get((b, a, s), 0)}x',
-                                    kind='C06/mirroring')
-            if len(out) % 2:
-                raise Violation(where + f'odd number of rows {len(out)}', kind='C06/mirroring')
-            nsel = len(out) // 2
-        if nsel > eff_cap:
-            raise Violation(where + f'{nsel} candidates evaluated, cap is {eff_cap}', kind='C06/cap')
-        if nsel < min(eff_cap, len(req)):
-            raise Violation(where + f'only {nsel} candidates evaluated; requested {len(req)}, cap {eff_cap}', kind='C06/cap')
-        if bi == 0:
-            # fresh sampler state: the distinct pairs are exactly min(cap, requested) (duplicates sort last)
-            if len(evaluated) != min(eff_cap, len(req)) and not (len(req) <= len(evaluated) <= len(allowed) and eff_cap >= len(req)):
-                raise Violation(where + f'{len(evaluated)} distinct pairs evaluated; requested {len(req)}, cap {eff_cap}', kind='C06/cap')
-        if eff_cap >= len(req) + dups:
-            missing = req - evaluated
-            if missing:
-                raise Violation(where + f'requested pairs missing although the cap ({eff_cap}) does not bind: {sorted(missing)[:5]} '
-                                f'({len(missing)} of {len(req)})', kind='C06/missing-pair')
+    for li, label in enumerate(labels):
+        # a later ranking of the same columns against another label column must not be influenced by the earlier one
+        args = stubs.make_args(heuristic=h, target_ranking_only='False' if pairwise else 'True',
+                               combination_number_upper_bound=cap, label_column=label)
+        req = required_pairs(cols, pairwise, h, label)
+        allowed = allowed_pairs(cols, pairwise, h, label)
+        dups = len([c for c in cols if c != label]) if pairwise else 0
+        for bi in range(nb):
+            out = mixed_rank_graph(df, args, stubs.InlinePool(), stubs.PBar()).triplet_scores
+            where = f'label {label!r} (#{li + 1} of {len(labels)}), batch {bi + 1} of {nb}: '
+            for a, b, s in out:
+                if a not in colset or b not in colset:
+                    raise Violation(where + f'row mentions a column outside the feature space: {(a, b)}', kind='C06/foreign-column')
+            evaluated = {upair(a, b) for a, b, _ in out}
+            if not evaluated <= allowed:
+                raise Violation(where + f'evaluated pairs outside the requested set: {sorted(evaluated - allowed)[:5]}',
+                                kind='C06/not-requested')
+            if h == 'Constant':
+                if any(float(s) != 0.0 for _, _, s in out):
+                    raise Violation(where + 'Constant heuristic emitted a non-zero score', kind='C06/constant')
+                nsel = len(out)
+            else:
+                def key(s):
+                    s = float(s)
+                    return 'nan' if s != s else s      # an undefined score (e.g. Pearson on a constant column) is still a row
+                rows = Counter((a, b, key(s)) for a, b, s in out)
+                for (a, b, s), k in rows.items():
+                    if rows.get((b, a, s), 0) != k:
+                        raise Violation(where + f'orientation ({a!r},{b!r},{s}) occurs {k}x but its mirror {rows.get((b, a, s), 0)}x',
+                                        kind='C06/mirroring')
+                if len(out) % 2:
+                    raise Violation(where + f'odd number of rows {len(out)}', kind='C06/mirroring')
+                nsel = len(out) // 2
+            if nsel > eff_cap:
+                raise Violation(where + f'{nsel} candidates evaluated, cap is {eff_cap}', kind='C06/cap')
+            if nsel < min(eff_cap, len(req)):
+                raise Violation(where + f'only {nsel} candidates evaluated; requested {len(req)}, cap {eff_cap}', kind='C06/cap')
+            if bi == 0 and li == 0:
+                # fresh sampler state: the distinct pairs are exactly min(cap, requested) (duplicates sort last)
+                if len(evaluated) != min(eff_cap, len(req)) and not (len(req) <= len(evaluated) <= len(allowed) and eff_cap >= len(req)):
+                    raise Violation(where + f'{len(evaluated)} distinct pairs evaluated; requested {len(req)}, cap {eff_cap}',
+                                    kind='C06/cap')
+            if eff_cap >= len(req) + dups:
+                missing = req - evaluated
+                if missing:
+                    raise Violation(where + f'requested pairs missing although the cap ({eff_cap}) does not bind: '
+                                    f'{sorted(missing)[:5]} ({len(missing)} of {len(req)})', kind='C06/missing-pair')
 
 
 KINDS = ['C06/pairs', 'C06/foreign-column', 'C06/not-requested', 'C06/constant', 'C06/mirroring', 'C06/cap', 'C06/missing-pair']
